@@ -24,55 +24,61 @@ EPS = np.finfo(float).eps
 SSP = ["explicit", "rk2_heun", "rk3ssp"]
 
 
-def euler_letters(tier):
+DEFAULT = {"euler1d": 1.4, "shallowwater": 9.81}      # gamma / g
+
+
+def euler_letters(tier, gam=1.4):
     rs = [1.0, 1e-3, 1e3, 0.3]
     ms = [0.0, 0.5, -0.5, 1.0, -1.0, 2.0, -2.0, 3.0, -3.0] if tier == "thorough" else [0.0, 0.5, -0.5, 1.0, -1.0, 3.0, -3.0]
     out = []
     for r, m, p in itertools.product(rs, ms, rs):
-        rr, u, pp = space.euler_state(r, m, p)
-        out.append((rr, rr * u, pp / 0.4 + 0.5 * rr * u * u))
+        rr, u, pp = space.euler_state(r, m, p, gam)
+        out.append((rr, rr * u, pp / (gam - 1.0) + 0.5 * rr * u * u))
     return np.array(out)
 
 
-def sw_letters(tier):
+def sw_letters(tier, g=9.81):
     hs = [1.0, 1e-3, 1e3, 0.3]
     fr = [0.0, 0.5, -0.5, 1.0, -1.0, 2.0, -2.0, 3.0, -3.0]
     out = []
     for h, f in itertools.product(hs, fr):
-        hh, u = space.sw_state(h, f)
+        hh, u = space.sw_state(h, f, g)
         out.append((hh, hh * u))
     return np.array(out)
 
 
-def build(kind, flux, mesh, bc="per"):
-    spec = ("euler1d", 1.4) if kind == "euler1d" else ("shallowwater", 9.81)
+def build(kind, flux, mesh, bc="per", par=None):
+    par = DEFAULT[kind] if par is None else par
+    spec = ("euler1d", par) if kind == "euler1d" else ("shallowwater", par)
     return space.build_1d(spec, flux, "extrapol1", mesh, bc, bc)
 
 
-def positive(kind, data):
+def positive(kind, data, par=None):
     if kind == "euler1d":
+        gam = DEFAULT[kind] if par is None else par
         rho, m, E = data
         with np.errstate(all="ignore"):
-            p = 0.4 * (E - 0.5 * m * m / rho)
+            p = (gam - 1.0) * (E - 0.5 * m * m / rho)
         return np.isfinite(rho) & np.isfinite(m) & np.isfinite(E) & (rho > 0) & (p > 0)
     h, q = data
     return np.isfinite(h) & np.isfinite(q) & (h > 0)
 
 
-def check_windows(kind, flux, cfl, tier, lo, hi, res=None):
-    A = euler_letters(tier) if kind == "euler1d" else sw_letters(tier)
+def check_windows(kind, flux, cfl, tier, lo, hi, res=None, par=None):
+    par = DEFAULT[kind] if par is None else par
+    A = euler_letters(tier, par) if kind == "euler1d" else sw_letters(tier, par)
     k = A.shape[0]
     W = pack.windows(k, 3, lo, hi)
     n = W.shape[0]
     cells = A[W.ravel()]            # (3n, neq)
     mesh = space.mesh1.unimesh(ncell=3 * n, length=3.0 * n)
-    model, disc = build(kind, flux, mesh)
+    model, disc = build(kind, flux, mesh, par=par)
     f = space.field.fdata(model, mesh, [cells[:, q].copy() for q in range(model.neq)])
     with np.errstate(all="ignore"):
         dt = pack.window_min(np.asarray(disc.calc_timestep(f, cfl), float), 3)
         space.integ.explicit(mesh, disc).step(f, dt)
     c = pack.centres(n, 3)
-    ok = positive(kind, [d[c] for d in f.data])
+    ok = positive(kind, [d[c] for d in f.data], par)
     out = []
     if res is not None:
         res.evals += n
@@ -82,18 +88,19 @@ def check_windows(kind, flux, cfl, tier, lo, hi, res=None):
             res.census["windows/density-ratio>=1e3"] += int(np.sum(rho0.max(1) / rho0.min(1) >= 1e3))
             res.census["windows/new-density-below-old-window-min"] += int(np.sum(f.data[0][c] < rho0.min(1)))
     for i in np.flatnonzero(~ok)[:20]:
-        out.append(("C10/window/%s/%s/cfl=%g" % (kind, flux, cfl), "%s %s CFL %g window (conservative) %r: centre becomes %r" % (
-            kind, flux, cfl, cells.reshape(n, 3, -1)[i].tolist(), [float(d[c[i]]) for d in f.data]), int(lo + i)))
+        out.append(("C10/window/%s/%s/cfl=%g" % (kind, flux, cfl), "%s(%g) %s CFL %g window (conservative) %r: centre becomes %r" % (
+            kind, par, flux, cfl, cells.reshape(n, 3, -1)[i].tolist(), [float(d[c[i]]) for d in f.data]), int(lo + i)))
     return out
 
 
 def shard_windows(arg):
-    kind, flux, cfl, tier, lo, hi = arg
+    kind, flux, cfl, tier, lo, hi = arg[:6]
+    par = arg[6] if len(arg) > 6 else None
     res = core.Res()
     step = 150000
     for a in range(lo, hi, step):
-        for s, w, j in check_windows(kind, flux, cfl, tier, a, min(hi, a + step), res):
-            res.violation(s, w, {"kind": "window", "model": kind, "flux": flux, "cfl": cfl, "tier": tier, "index": j})
+        for s, w, j in check_windows(kind, flux, cfl, tier, a, min(hi, a + step), res, par):
+            res.violation(s, w, {"kind": "window", "model": kind, "flux": flux, "cfl": cfl, "tier": tier, "index": j, "par": par})
     res.sample({"model": kind, "flux": flux, "cfl": cfl, "window_number": lo}, cap=1)
     return res
 
@@ -102,17 +109,18 @@ STRONG_E = [(1.0, 0.0, 1.0), (1e-3, 1.0, 1e-3), (1e3, -0.5, 1.0), (1.0, 3.0, 1e3
 STRONG_H = [(1.0, 0.0), (1e-3, 1.0), (1e3, -0.5), (0.3, 3.0), (1.0, -3.0), (1e3, 2.0)]
 
 
-def bfs(kind, flux, iname, cfl, bc, idx, depth, res=None):
+def bfs(kind, flux, iname, cfl, bc, idx, depth, res=None, par=None):
+    par = DEFAULT[kind] if par is None else par
     if kind == "euler1d":
         al = []
         for r, m, p in STRONG_E:
-            rr, u, pp = space.euler_state(r, m, p)
-            al.append(np.array([rr, rr * u, pp / 0.4 + 0.5 * rr * u * u]))
+            rr, u, pp = space.euler_state(r, m, p, par)
+            al.append(np.array([rr, rr * u, pp / (par - 1.0) + 0.5 * rr * u * u]))
     else:
-        al = [np.array([h, h * space.sw_state(h, f)[1]]) for h, f in STRONG_H]
+        al = [np.array([h, h * space.sw_state(h, f, par)[1]]) for h, f in STRONG_H]
     n = len(idx)
     mesh = space.mesh1.unimesh(ncell=n, length=float(n))
-    model, disc = build(kind, flux, mesh, bc)
+    model, disc = build(kind, flux, mesh, bc, par)
     f = space.field_from_letters(model, mesh, al, idx)
     solver = space.integrators()[iname](mesh, disc)
     out = []
@@ -124,7 +132,7 @@ def bfs(kind, flux, iname, cfl, bc, idx, depth, res=None):
             res.transitions += 1
             res.evals += 1
             res.states.add(hash(tuple(x.tobytes() for x in f.data)))
-        if not np.all(positive(kind, f.data)):
+        if not np.all(positive(kind, f.data, par)):
             out.append(("C10/bfs/%s/%s/%s/%s/cfl=%g" % (kind, flux, iname, bc, cfl), "%s %s %s %s CFL %g data letters %r: after step %d the state is %r"
                         % (kind, flux, iname, bc, cfl, idx, d + 1, [x.tolist() for x in f.data])))
             break
@@ -132,15 +140,16 @@ def bfs(kind, flux, iname, cfl, bc, idx, depth, res=None):
 
 
 def shard_bfs(arg):
-    kind, flux, iname, cfl, bc, n, depth = arg
+    kind, flux, iname, cfl, bc, n, depth = arg[:7]
+    par = arg[7] if len(arg) > 7 else None
     res = core.Res()
     for idx in itertools.product(range(6), repeat=n):
         if len(set(idx)) == 1 and bc == "per":
             continue
         res.nontrivial += 1
         res.traces += 1
-        for s, w in bfs(kind, flux, iname, cfl, bc, idx, depth, res):
-            res.violation(s, w, {"kind": "bfs", "model": kind, "flux": flux, "integrator": iname, "cfl": cfl, "bc": bc, "idx": list(idx), "depth": depth})
+        for s, w in bfs(kind, flux, iname, cfl, bc, idx, depth, res, par):
+            res.violation(s, w, {"kind": "bfs", "model": kind, "flux": flux, "integrator": iname, "cfl": cfl, "bc": bc, "idx": list(idx), "depth": depth, "par": par})
     res.sample({"model": kind, "flux": flux, "integrator": iname, "cfl": cfl, "bc": bc, "data_letters": [1, 2, 3][:n], "ops": ["step"] * depth}, cap=1)
     return res
 
@@ -155,6 +164,15 @@ def run(ctx):
             for cfl in (0.5, 0.25):
                 for c in range(nchunk):
                     cfg.append((kind, flux, cfl, ctx.tier, tot * c // nchunk, tot * (c + 1) // nchunk))
+    # secondary parameters: another gamma (monatomic gas; thorough also 1.1 and 2) and another g, on the quick alphabet
+    for kind, fluxes, pars in (("euler1d", ("hlle", "hllc"), (5.0 / 3.0,) + ((1.1, 2.0) if th else ())), ("shallowwater", ("rusanov", "hll"), (1.0,) + ((30.0,) if th else ()))):
+        for par in pars:
+            nlet = len(euler_letters("quick", par)) if kind == "euler1d" else len(sw_letters("quick", par))
+            tot = nlet ** 3
+            nchunk = 8 if kind == "euler1d" else 1
+            for flux in fluxes:
+                for c in range(nchunk):
+                    cfg.append((kind, flux, 0.5, "quick", tot * c // nchunk, tot * (c + 1) // nchunk, par))
     ctx.pmap("packed-windows", shard_windows, cfg)
     cfg2 = []
     for kind, fluxes in (("euler1d", ("hlle", "hllc")), ("shallowwater", ("rusanov", "hll"))):
@@ -164,6 +182,10 @@ def run(ctx):
                     for bc in ("per", "sym"):
                         for n in ((2, 3, 4) if th else (2, 3)):
                             cfg2.append((kind, flux, iname, cfl, bc, n, 3))
+    for kind, fluxes, par in (("euler1d", ("hlle", "hllc"), 5.0 / 3.0), ("shallowwater", ("rusanov", "hll"), 1.0)):
+        for flux in fluxes:
+            for iname in SSP:
+                cfg2.append((kind, flux, iname, 0.5, "sym", 3, 3, par))
     cfg2.sort(key=lambda c: -c[5])
     ctx.pmap("bfs-ssp", shard_bfs, cfg2)
 
@@ -171,5 +193,5 @@ def run(ctx):
 def replay(case):
     if case["kind"] == "window":
         j = case["index"]
-        return [(s, w) for s, w, _ in check_windows(case["model"], case["flux"], case["cfl"], case["tier"], j, j + 1)]
-    return bfs(case["model"], case["flux"], case["integrator"], case["cfl"], case["bc"], tuple(case["idx"]), case["depth"])
+        return [(s, w) for s, w, _ in check_windows(case["model"], case["flux"], case["cfl"], case["tier"], j, j + 1, None, case.get("par"))]
+    return bfs(case["model"], case["flux"], case["integrator"], case["cfl"], case["bc"], tuple(case["idx"]), case["depth"], None, case.get("par"))
